@@ -38,6 +38,33 @@ def ref_merge(a: Any, b: Any) -> dict:
     return out
 
 
+def strict_eq(a: Any, b: Any) -> bool:
+    """Equality that tells 1 from True from 1.0 (configuration values keep their types)."""
+    if type(a) is not type(b):
+        return False
+    if isinstance(a, dict):
+        return set(a) == set(b) and all(strict_eq(a[k], b[k]) for k in a)
+    if isinstance(a, list):
+        return len(a) == len(b) and all(strict_eq(x, y) for x, y in zip(a, b))
+    return a == b
+
+
+def _dict_paths(d: Any, path: tuple = ()) -> list:
+    out = []
+    if isinstance(d, dict):
+        for k, v in d.items():
+            if isinstance(v, dict):
+                out.append(path + (k,))
+                out.extend(_dict_paths(v, path + (k,)))
+    return out
+
+
+def _get(d: Any, path: tuple) -> Any:
+    for k in path:
+        d = d[k]
+    return d
+
+
 def _idgraph(d: Any, path: tuple = ()) -> list:
     out = []
     if isinstance(d, dict):
@@ -78,9 +105,24 @@ def run_case(case: dict, prop: str) -> Outcome:
 
     out = Outcome()
     a, b = copy.deepcopy(case["a"]), copy.deepcopy(case["b"])
+    # optionally the SAME dict object sits at two places of an argument (YAML anchors, reused option dicts)
+    for which, arg in (("alias_a", a), ("alias_b", b)):
+        al = case.get(which)
+        if al and isinstance(arg, dict):
+            try:
+                src = _get(arg, tuple(al[0]))
+                parent = _get(arg, tuple(al[1][:-1]))
+                if isinstance(src, dict) and isinstance(parent, dict) and al[1][-1] in parent and tuple(al[0]) != tuple(al[1]) \
+                        and tuple(al[1][: len(al[0])]) != tuple(al[0]) and tuple(al[0][: len(al[1])]) != tuple(al[1]):
+                    parent[al[1][-1]] = src
+            except (KeyError, TypeError, IndexError):
+                pass
     a0, b0 = copy.deepcopy(a), copy.deepcopy(b)
     ga, gb = _idgraph(a), _idgraph(b)
+    ga_post = (ga, gb)
     labs = _collisions(a, b)
+    if case.get("alias_a") or case.get("alias_b"):
+        labs.add("shared-subdict")
     out.labels = sorted(labs) + [f"a={'None' if a is None else 'dict'}", f"b={'None' if b is None else 'dict'}"]
     out.nontrivial = bool(labs & {"dict/dict@2", "dict/dict@3", "dict/scalar", "scalar/dict"})
     try:
@@ -93,10 +135,12 @@ def run_case(case: dict, prop: str) -> Outcome:
     if not isinstance(res, dict):
         out.add("merge", "merge:not-dict", f"result is {type(res).__name__}")
         return out
-    if res != exp:
+    if not strict_eq(res, exp):
         kinds = ",".join(sorted(labs)) or "none"
         # bucket by the direction of the error, not by the data
-        if a0 is not None and b0 is not None and res == ref_merge(b0, a0):
+        if res == exp:
+            b_ = "merge:value-type-differs"  # equal but of another type (1 / True / 1.0)
+        elif a0 is not None and b0 is not None and res == ref_merge(b0, a0):
             b_ = "merge:left-biased"
         elif set(res) != set(exp):
             b_ = "merge:keys-differ"
@@ -105,18 +149,19 @@ def run_case(case: dict, prop: str) -> Outcome:
         out.add("merge", b_, f"merge_config({a0!r}, {b0!r}) = {res!r}, expected {exp!r} (collisions: {kinds})")
     if res is a or res is b:
         out.add("purity", "purity:result-is-argument", "result is one of the arguments, not a new dict")
-    if a != a0 or _idgraph(a) != ga:
+    ga, gb = (ga, gb)
+    if not strict_eq(a, a0) or _idgraph(a) != ga_post[0]:
         out.add("purity", "purity:original-modified", f"original modified: before {a0!r} after {a!r}")
-    if b != b0 or _idgraph(b) != gb:
+    if not strict_eq(b, b0) or _idgraph(b) != ga_post[1]:
         out.add("purity", "purity:overrides-modified", f"overrides modified: before {b0!r} after {b!r}")
     # laws (cheap, and they do not go through the reference)
     try:
         if a0 is not None:
-            if merge_config(a, {}) != a0 or merge_config(a, None) != a0:
+            if not strict_eq(merge_config(a, {}), a0) or not strict_eq(merge_config(a, None), a0):
                 out.add("merge", "law:right-identity", f"merge(a, {{}}) != a for a={a0!r}")
-            if merge_config({}, a) != a0 or merge_config(None, a) != a0:
+            if not strict_eq(merge_config({}, a), a0) or not strict_eq(merge_config(None, a), a0):
                 out.add("merge", "law:left-identity", f"merge({{}}, a) != a for a={a0!r}")
-            if merge_config(a, a) != a0:
+            if not strict_eq(merge_config(a, a), a0):
                 out.add("merge", "law:idempotent", f"merge(a, a) != a for a={a0!r}")
             if a != a0 or _idgraph(a) != ga:
                 out.add("purity", "purity:original-modified", f"original modified by identity-law calls: {a0!r} -> {a!r}")
@@ -135,7 +180,7 @@ def run_case(case: dict, prop: str) -> Outcome:
 # ---- generators ---------------------------------------------------------------------
 
 _scalars = st.one_of(
-    st.none(), st.booleans(), st.integers(-3, 3), st.sampled_from(["", "x", "a.b"]),
+    st.none(), st.booleans(), st.integers(-3, 3), st.sampled_from(["", "x", "a.b"]), st.sampled_from([0, 1, True, False, 0.0, 1.0]),
     st.floats(allow_nan=False, allow_infinity=False, width=16),
 )
 _leaf = st.one_of(_scalars, st.lists(_scalars, max_size=2), st.just({}))
@@ -166,7 +211,20 @@ def _pairs(draw: Any, max_keys: int) -> dict:
     else:
         # b is built along a's shape so that deep collisions are frequent
         b = _shadow(draw, a, 4)
-    return {"a": a, "b": b}
+    case = {"a": a, "b": b}
+    if draw(ints(0, 99)) < 35:
+        for which, arg, other in (("alias_b", b, a), ("alias_a", a, b)):
+            ps = _dict_paths(arg) if isinstance(arg, dict) else []
+            # positions that collide with a dict on the other side are where sharing matters
+            both = [p for p in ps if isinstance(other, dict) and p in _dict_paths(other)]
+            if len(both) >= 2:
+                ps = both
+            if len(ps) >= 2 and (which == "alias_b" or draw(ints(0, 1))):
+                i = draw(ints(0, len(ps) - 1))
+                j = draw(ints(0, len(ps) - 1))
+                if i != j:
+                    case[which] = [list(ps[i]), list(ps[j])]
+    return case
 
 
 @lru_cache(maxsize=None)
